@@ -50,6 +50,9 @@ def read_conv_attributes(ir_conv: ir.Node) -> dict[str, Sequence[int] | str]:
     attributes["strides"] = ir_attributes.get_ints(
         "strides", [1] * len(ir_conv.inputs[0].shape[2:])
     )
+    attributes["dilations"] = ir_attributes.get_ints(
+        "dilations", [1] * len(ir_conv.inputs[0].shape[2:])
+    )
     attributes["auto_pad"] = ir_attributes.get_string("auto_pad", "NOTSET")
     if "pads" in ir_attributes:
         attributes["pads"] = ir_attributes.get_ints("pads")
@@ -125,17 +128,17 @@ class _FuseConvPadBase(orp.RewriteRuleClassBase):
             )
 
         # Pad constraints: inputs
-        if (pads := pad_node.inputs[1]).const_value is None:
+        if (pads := pad_node.inputs[1]).const_value is None or pads.is_graph_input():
             return check_result.fail(f"{pads.name} is not a constant/initializer.")
         if len(pad_node.inputs) > 2 and (constant_value := pad_node.inputs[2]) is not None:
-            if constant_value.const_value is None:
+            if constant_value.const_value is None or constant_value.is_graph_input():
                 return check_result.fail(
                     f"{constant_value.name} is not a constant/initializer."
                 )
             elif constant_value.const_value.numpy().item() != 0:
                 return check_result.fail(f"{constant_value.name} must be equal to 0.")
         if len(pad_node.inputs) > 3 and (axes := pad_node.inputs[3]) is not None:
-            if axes.const_value is None:
+            if axes.const_value is None or axes.is_graph_input():
                 return check_result.fail(f"{axes.name} is not a constant/initializer.")
             axes_list = [x if x >= 0 else x_rank + x for x in axes.const_value.numpy()]
         else:
@@ -186,6 +189,25 @@ class FuseConvIntegerPad(FuseConvPad):
             _allow_other_inputs=True,
             _outputs=["conv"],
         )
+
+    def check(self, context, x: ir.Value, pad: ir.Value, conv: ir.Value) -> orp.MatchResult:
+        check_result = super().check(context, x, pad, conv)
+        if not check_result:
+            return check_result
+
+        # ConvInteger pads implicitly with x_zero_point whereas Pad inserted zeros:
+        # both agree only when the zero point is a constant 0 (or absent).
+        conv_node = conv.producer()
+        if len(conv_node.inputs) > 2 and (x_zero_point := conv_node.inputs[2]) is not None:
+            if (
+                x_zero_point.const_value is None
+                or x_zero_point.is_graph_input()
+                or np.any(x_zero_point.const_value.numpy() != 0)
+            ):
+                return check_result.fail(
+                    f"{conv_node.name} ({conv_node.op_type}) x_zero_point must be a constant 0."
+                )
+        return check_result
 
 
 class _NormalizePadFormatBase(orp.RewriteRuleClassBase):
@@ -302,10 +324,11 @@ class NormalizePadFormatConv(_NormalizePadFormatBase):
 
         bottom_pads, top_pads = [], []
         kernel_shape, strides = attributes["kernel_shape"], attributes["strides"]
+        dilations = attributes.get("dilations", [1] * len(kernel_shape))
         assert len(kernel_shape) == len(strides) == len(input_shape) == len(output_shape)
-        for x, y, k, s in zip(input_shape, output_shape, kernel_shape, strides):
-            # Compute the output shape and the total padding to apply
-            total_pads = max(0, (y - 1) * s + k - x)
+        for x, y, k, s, d in zip(input_shape, output_shape, kernel_shape, strides, dilations):
+            # Compute the output shape and the total padding to apply (extent of the dilated kernel)
+            total_pads = max(0, (y - 1) * s + (k - 1) * d + 1 - x)
 
             # Depending of mode, apply the padding to the upper or lower part
             pad1 = total_pads // 2
